@@ -676,8 +676,17 @@ macro_rules! impl_graph_traits {
                 &mut self,
                 n: <$graph_type<N, E, Ix> as GraphBase>::NodeId,
             ) -> Option<N> {
+                // An absent node has no place in the order: nothing to update.
+                self.graph.node_weight(n)?;
                 self.order_map.remove_node(n, &self.graph);
-                self.graph.remove_node(n)
+                let weight = self.graph.remove_node(n);
+                if self.graph.node_weight(n).is_some() {
+                    // The index `n` is in use again: the inner graph (a `Graph`) has moved
+                    // its last node into the freed index. Follow the renumbering.
+                    let moved = NodeIndex::new(self.graph.node_count());
+                    self.order_map.rename_node(moved, n, &self.graph);
+                }
+                weight
             }
         }
 
